@@ -4,7 +4,13 @@ import json, os, glob
 ROOT = os.path.dirname(os.path.dirname(os.path.abspath(__file__)))
 props = [json.loads(l)["id"] for l in open(os.path.join(ROOT, "properties.jsonl")) if l.strip()]
 cfgs = {}
+import subprocess
+# only props files that are committed (or at least staged) count: MANIFEST must describe what a
+# fresh checkout of /verif can run, not an agent's work in progress
+tracked = set(subprocess.run(["git", "-C", ROOT, "ls-files", "props"], capture_output=True, text=True).stdout.split())
 for f in sorted(glob.glob(os.path.join(ROOT, "props", "C*.json"))):
+    if os.path.relpath(f, ROOT) not in tracked and not os.environ.get("MANIFEST_INCLUDE_UNTRACKED"):
+        continue
     c = json.load(open(f))
     cfgs[c["id"]] = c
 na_reasons = {}
